@@ -35,7 +35,7 @@ ASSUMPTIONS = [
     "non-integer positions (floats, strings, None) are outside the quantifier (arbitrary integer positions) and not driven",
 ]
 REQUIRED = {"all": ["set_calls", "clear_calls", "positions_zero_or_negative", "positions_beyond_end", "positions_non_sty",
-                    "positions_duplicate", "distribution_checked", "distributions_over_9_or_more_sites", "position_lists_that_look_like_a_mask", "positions_beyond_64_bits", "shuffled_copies_of_objects_with_sites", "requests_naming_all_held_sites_in_another_order", "kappa_after_checked", "kappa_after_with_cached_dmax",
+                    "positions_duplicate", "distribution_checked", "distributions_over_9_or_more_sites", "position_lists_that_look_like_a_mask", "positions_beyond_64_bits", "shuffled_copies_of_objects_with_sites", "requests_naming_all_held_sites_in_another_order", "second_handles_on_objects_with_sites", "distributions_after_resetting_the_same_sites_in_another_order", "kappa_after_checked", "kappa_after_with_cached_dmax",
                     "clear_then_phosphosequence", "out_of_order_sites", "long_ignored_position_histories"]}
 NWORDS = {"quick": 400, "thorough": 5000}
 
@@ -166,6 +166,30 @@ def judge(case, rep, S):
             if len(entry) != 7 or not all(M.close(a, b) for a, b in zip(entry[:6], want)):
                 rep.viol("distribution_values", "entry %r for status %r differs from the fresh object of %s: %r %s" % (entry, status, sub, want, ctx))
                 return
+        if list(obj.get_phosphosites()) != model:
+            rep.viol("site_list", "get_phosphosites() changed from %r to %r after the distribution query %s" % (model, obj.get_phosphosites(), ctx),
+                     sig={"after_distribution": True})
+            return
+        if k <= 9:
+            # the same sites set in the opposite order after a clear: the columns of the distribution follow the new order
+            obj.clear_phosphosites()
+            obj.set_phosphosites(list(reversed(model)))
+            model2 = list(obj.get_phosphosites())
+            dist2 = obj.get_full_phosphostatus_kappa_distribution()
+            rep.cnt("distributions_after_resetting_the_same_sites_in_another_order")
+            if model2 != list(reversed(model)) or len(dist2) != 2 ** k:
+                rep.viol("site_list", "clear + set_phosphosites(%r) gives sites %r and %d states" % (list(reversed(model)), model2, len(dist2)))
+                return
+            for entry, status in zip(dist2, itertools.product("01", repeat=k)):
+                sub = list(seq)
+                for bit, p_ in zip(status, model2):
+                    if bit == "1":
+                        sub[p_ - 1] = "E"
+                want = fresh.get("".join(sub))
+                if want is None or tuple(entry[-1]) != status or not all(M.close(a, b) for a, b in zip(entry[:6], want)):
+                    rep.viol("distribution_values", "after clearing and setting the same sites in the opposite order, entry %r for status %r is not that of %s (%r) %s" % (
+                        entry, status, "".join(sub), want, ctx), sig={"reordered": True})
+                    return
         return
     if case["o"] % 10 == 0:
         # more than a hundred positions that must be ignored, on this one object, before the ordinary operations
@@ -270,6 +294,13 @@ def check_state(rep, S, obj, seq, model, all_sty, word, rng):
         return False
     if model and rng.random() < 0.15 and not check_child(rep, obj, seq, model, rng):
         return False
+    if model and rng.random() < 0.1:
+        h2 = SP(SeqObj=obj.SeqObj)                 # a second front-end handle on the same backend object
+        rep.cnt("second_handles_on_objects_with_sites")
+        if list(h2.get_phosphosites()) != list(model) or list(obj.get_phosphosites()) != list(model):
+            rep.viol("site_list", "a second handle SequenceParameters(SeqObj=...) on an object with sites %r: handle lists %r, the object now %r" % (
+                model, h2.get_phosphosites(), obj.get_phosphosites()), sig={"second_handle": True})
+            return False
     if list(obj.get_all_phosphorylatable_sites()) != all_sty:
         rep.viol("all_sites", "get_all_phosphorylatable_sites()=%r, expected %r on %s" % (obj.get_all_phosphorylatable_sites(), all_sty, seq))
     want_pseq = "".join("E" if (i + 1) in model else c for i, c in enumerate(seq))
